@@ -11,6 +11,7 @@ import (
 	"os/exec"
 	"path/filepath"
 	"regexp"
+	"sort"
 	"strconv"
 	"strings"
 	"time"
@@ -317,6 +318,8 @@ func (c *checkCtx) mcMustFail(module, cfg string, o tlcOpts) {
 // replay
 
 type replayOpts struct {
+	chunk   int
+	sortKey string // sort the cases by the JSON of this field first (locality)
 	workers int
 	timeout time.Duration
 	opts    map[string]string
@@ -339,10 +342,34 @@ func (c *checkCtx) replay(fam, casesFile string, o replayOpts) (cases, results [
 	if o.timeout == 0 {
 		o.timeout = 20 * time.Second
 	}
+	if o.sortKey != "" {
+		cs := readNd(casesFile)
+		keys := make([]string, len(cs))
+		idx := make([]int, len(cs))
+		for i, m := range cs {
+			b, _ := json.Marshal(m[o.sortKey])
+			keys[i] = string(b)
+			idx[i] = i
+		}
+		sort.SliceStable(idx, func(a, b int) bool { return keys[idx[a]] < keys[idx[b]] })
+		f, _ := os.Create(casesFile + ".sorted")
+		w := bufio.NewWriterSize(f, 1<<20)
+		for _, i := range idx {
+			b, _ := json.Marshal(cs[i])
+			w.Write(b)
+			w.WriteByte('\n')
+		}
+		w.Flush()
+		f.Close()
+		casesFile = casesFile + ".sorted"
+	}
 	out := casesFile + ".res"
 	args := []string{"replay", fam, "--cases", casesFile, "--out", out, "--workers", strconv.Itoa(o.workers), "--timeout", o.timeout.String()}
 	for k, v := range o.opts {
 		args = append(args, "--opt", k+"="+v)
+	}
+	if o.chunk > 0 {
+		args = append(args, "--chunk", strconv.Itoa(o.chunk))
 	}
 	c.vhRun(args...)
 	cases = readNd(casesFile)
